@@ -11,7 +11,7 @@ Definition glog := (list name * list name)%type.     (* value names, node names 
 
 Definition log_step (g : gst) (o : gop) (g1 : gst) (r : res unit) (lg : glog) : glog :=
   match o, r with
-  | GCtor vals, Ok _ => (somes (map (g_vname g1) vals) ++ fst lg, snd lg)
+  | GCtor ins inits, Ok _ => (somes (map (g_vname g1) (ins ++ inits)) ++ fst lg, snd lg)
   | GAdd ns, Ok _ =>
       (somes (map (g_vname g1) (flat_map (g_nouts g) ns)) ++ fst lg, somes (map (g_nname g1) ns) ++ snd lg)
   | _, _ => lg
@@ -50,6 +50,53 @@ Proof.
   destruct (g_regv_reg _ _ _ Em) as [s [A B]].
   destruct (g_regvs_spec r gm) as [g1' [H' [K _]]]. rewrite H in H'. inversion H'; subst g1'.
   exists s. pose proof (kf_vals _ _ K w) as S. rewrite A in S. simpl in S. split; [exact S | apply (kf_v _ _ K); exact B].
+Qed.
+
+Lemma g_regv_frame g v g1 u : g_regv g v = Some g1 -> u <> v -> g_vname g1 u = g_vname g u.
+Proof.
+  unfold g_regv. destruct (astep (g_au g) (RegV (g_vname g v))) as [[a s]|]; [|discriminate].
+  intros H Hne. inversion H; subst. simpl. apply upd_other. exact Hne.
+Qed.
+
+Lemma g_regvs_frame vs : forall g g1 u, g_regvs g vs = Some g1 -> ~ In u vs -> g_vname g1 u = g_vname g u.
+Proof.
+  induction vs as [|w r IH]; intros g g1 u H Hu; simpl in H; [inversion H; reflexivity|].
+  destruct (g_regv g w) as [gm|] eqn:Em; [|discriminate].
+  rewrite (IH gm g1 u H) by (intros X; apply Hu; right; exact X).
+  eapply g_regv_frame; [exact Em|]. intros ->. apply Hu. left. reflexivity.
+Qed.
+
+(* what Graph(inputs, initializers) does (since fix f54d66f) *)
+Lemma gctor_facts g ins inits g2 r : gstep g (GCtor ins inits) = Some (g2, r) ->
+  exists g1, kept_fresh g g1 /\ kept_fresh g1 g2 /\
+    (forall w x, In w (ins ++ inits) -> g_vname g w = Some x -> In x (vnames (g_au g1))) /\
+    (forall v, g_vname g v = None -> g_vname g1 v = None) /\
+    (forall v, In v ins -> exists s, g_vname g2 v = Some s /\ In s (vnames (g_au g2))).
+Proof.
+  simpl. intros H.
+  destruct (gctor_spec g ins inits) as [ga [gb [H1 [H2 [K1 K2]]]]]. unfold named_in_g in H1. rewrite H1, H2 in H.
+  inversion H; subst gb r. exists ga. split; [exact K1|]. split; [exact K2|]. split; [|split].
+  - intros w x Hw Ex.
+    assert (Hin : In w (filter (fun v => match g_vname g v with Some _ => true | None => false end) (ins ++ inits))).
+    { apply filter_In. split; [exact Hw | rewrite Ex; reflexivity]. }
+    destruct (g_regvs_reg _ _ _ H1 w Hin) as [s [A B]].
+    pose proof (kf_vals _ _ K1 w) as S. rewrite Ex in S. simpl in S. congruence.
+  - intros v Hv. rewrite (g_regvs_frame _ _ _ v H1); [exact Hv|].
+    intros X. apply filter_In in X. destruct X as [_ X]. rewrite Hv in X. discriminate.
+  - intros v Hv. apply (g_regvs_reg _ _ _ H2 v Hv).
+Qed.
+
+(* C15_ctor_generated_equals_present (the stronger reading, true since f54d66f): a name the constructor gives to an
+   unnamed input differs from the explicit name of every input and initializer of the graph being built *)
+Theorem ctor_generated_not_present g ins inits g2 r v s w x :
+  gstep g (GCtor ins inits) = Some (g2, r) ->
+  g_vname g v = None -> g_vname g2 v = Some s ->
+  In w (ins ++ inits) -> g_vname g w = Some x -> s <> x.
+Proof.
+  intros H Hv Hs Hw Ex E. subst x.
+  destruct (gctor_facts _ _ _ _ _ H) as [g1 [K1 [K2 [F1 [F2 _]]]]].
+  pose proof (kf_vals _ _ K2 v) as S. rewrite (F2 v Hv), Hs in S. simpl in S.
+  apply (proj1 S). apply (F1 w s Hw Ex).
 Qed.
 
 Lemma g_addnode_reg g n g1 : g_addnode g n = Some (g1, Ok tt) ->
@@ -104,10 +151,25 @@ Proof.
   destruct Mono as [Mv Mn].
   assert (Base : LInv g1 lg) by (split; eapply incl_tran; eassumption).
   destruct o; simpl in *; try exact Base.
-  - (* GCtor *) destruct (g_regvs g vals) as [g2|] eqn:E; [|discriminate]. inversion H; subst. simpl.
+  - (* GCtor *) destruct r as [[]|e].
+    2:{ exfalso. destruct (gctor_spec g ins inits) as [ga [gb [H1 [H2 _]]]]. unfold named_in_g in H1. rewrite H1, H2 in H. discriminate. }
+    destruct (gctor_facts _ _ _ _ _ H) as [ga [K1 [K2 [F1 [F2 F3]]]]].
     split; [|exact (proj2 Base)]. simpl. apply incl_app; [|exact (proj1 Base)].
     intros s Hs. apply somes_In in Hs. apply in_map_iff in Hs. destruct Hs as [v [Ev Hv]].
-    destruct (g_regvs_reg _ _ _ E v Hv) as [s' [A B]]. congruence.
+    apply in_app_or in Hv. destruct (in_dec N.eq_dec v ins) as [Hi|Hi].
+    + destruct (F3 v Hi) as [s' [A B]]. congruence.
+    + destruct (g_vname g v) as [x|] eqn:Ex.
+      * pose proof (kf_vals _ _ K1 v) as S1. rewrite Ex in S1. simpl in S1.
+        pose proof (kf_vals _ _ K2 v) as S2. rewrite S1 in S2. simpl in S2.
+        assert (s = x) by congruence. subst s. apply (kf_v _ _ K2).
+        apply (F1 v x); [apply in_or_app; exact Hv | exact Ex].
+      * exfalso. simpl in H.
+        destruct (gctor_spec g ins inits) as [gx [gy [H1 [H2 _]]]]. unfold named_in_g in H1. rewrite H1, H2 in H.
+        inversion H; subst gy.
+        assert (E1 : g_vname gx v = None).
+        { rewrite (g_regvs_frame _ _ _ v H1); [exact Ex|]. intros X. apply filter_In in X. destruct X as [_ X].
+          rewrite Ex in X. discriminate. }
+        rewrite (g_regvs_frame _ _ _ v H2 Hi) in Ev. congruence.
   - (* GAdd *) destruct r as [[]|e]; [|exact Base].
     unfold g_addnodes in H. destruct (existsb (g_foreign g) ns); [discriminate|].
     destruct (g_addnodes_go_reg _ _ _ H) as [C D]. split; simpl.
